@@ -69,3 +69,21 @@ Fixpoint scan (wi : list (nat * part)) (open_hdr : option nat) : option (option 
   | (c, PHdr) :: rest => match open_hdr with None => scan rest (Some c) | Some _ => None end
   | (c, PPay) :: rest => match open_hdr with Some h => if h =? c then scan rest None else None | None => None end
   end.
+
+(* Closing the writer. conn.Close takes the same mutex as sendPacket (locked_close = true): the close can only happen while
+   nobody is between its Lock and its Unlock - the receive loop's deferred conn.Close() waits for a sender that has written a
+   header to write the payload too. locked_close = false is the variant that closes the transport directly. Once the writer
+   is closed nothing further reaches the wire: the run is over as far as the wire is concerned. *)
+Inductive clabel := CW (l : wlabel) | CClose.
+
+Definition cstep (locked_close : bool) (s : wst * bool) (l : clabel) : option (wst * bool) :=
+  let (w, closed) := s in
+  if closed then None
+  else match l with
+       | CW l => match wstep true w l with Some w' => Some (w', false) | None => None end
+       | CClose => if locked_close then match holder w with None => Some (w, true) | Some _ => None end
+                   else Some (w, true)
+       end.
+
+Fixpoint crun (locked_close : bool) (s : wst * bool) (tr : list clabel) : option (wst * bool) :=
+  match tr with [] => Some s | l :: rest => match cstep locked_close s l with Some s' => crun locked_close s' rest | None => None end end.
